@@ -16,7 +16,7 @@ import itertools
 from typing import Dict, List, Optional, Tuple
 
 from ..model import Program, AnalysisError, FuncInfo, walk_local, dotted
-from ..report import RuleResult
+from ..report import RuleResult, guard
 from ..astutil import src, site, calls_in, call_name, is_self_attr, is_super_call
 from ..cfg import CFG
 from ..surgery import Heap, Interp, Obj, _Ret, Const
@@ -482,6 +482,12 @@ def _hv_truth(prog):
     return hv_truth(prog)
 
 
+def _cond_fold(prog):
+    from .c01 import cond_fold
+
+    return cond_fold(prog)
+
+
 def _shared_default(prog):
     from .shareddefault import shared_default
 
@@ -493,10 +499,12 @@ def run(prog: Program, tier: str) -> List[RuleResult]:
     from .c03 import carry1, carry_reset_reach
 
     # what a selector remembers about conclusions it already produced decides which branch fires: it must be reset for every concrete selector (shared with C03)
-    return [rule_surgery(prog, 3 if tier == "thorough" else 2), rule_select(prog), carry1(prog),
+    return [guard(lambda: rule_surgery(prog, 3 if tier == "thorough" else 2)), guard(lambda: rule_select(prog)), guard(lambda: carry1(prog)),
             # ... and the reset has to reach the selectors of branches written after an evaluation
-            carry_reset_reach(prog),
+            guard(lambda: carry_reset_reach(prog)),
             # the selectors' memories are separate objects (true / false results, one selector and the next)
-            _shared_default(prog),
+            guard(lambda: _shared_default(prog)),
             # 'constructed from the values of the binding': an argument whose value is falsy is an argument
-            _hv_truth(prog)]
+            guard(lambda: _hv_truth(prog)),
+            # refinement(...) / alternative(...) / next_rule(...) fold the conditions of a branch like and_(...) does: none is dropped for being False
+            guard(lambda: _cond_fold(prog))]
